@@ -4,6 +4,8 @@ import (
 	"math/rand"
 	"strconv"
 
+	"github.com/ethereum/go-ethereum/rlp"
+
 	"github.com/Fantom-foundation/lachesis-base/inter/idx"
 	"github.com/Fantom-foundation/lachesis-base/inter/pos"
 
@@ -364,6 +366,41 @@ func init() {
 				}
 				emit(in...)
 			}
+			// every constructor, id slices with repeats and zero weights (last write wins, 0 removes)
+			qmModes := []string{"set", "arr", "eq", "copy", "bld", "dec"}
+			emit("QM", "arr", "1", "4", "2", "9", "2", "1", "3", "1")
+			emit("QM", "eq", "1", "5", "2", "5", "2", "5", "3", "5")
+			for i := 0; i < n/3+30; i++ {
+				m := 1 + r.Intn(7)
+				mode := qmModes[r.Intn(len(qmModes))]
+				eqw := uint64(r.Intn(4)) // EqualWeightValidators needs one weight (0 = everything removed)
+				var ids, ws []uint64
+				for j := 0; j < m; j++ {
+					ids = append(ids, uint64(1+r.Intn(5)))
+					w := uint64(r.Intn(12))
+					if r.Intn(5) == 0 {
+						w = uint64(0x7FFFFFFF) / uint64(m)
+					}
+					ws = append(ws, w)
+				}
+				switch r.Intn(5) {
+				case 0: // repeat the first id at the end
+					ids, ws = append(ids, ids[0]), append(ws, uint64(1+r.Intn(9)))
+				case 1: // repeat the last id with weight 0: removed
+					ids, ws = append(ids, ids[len(ids)-1]), append(ws, 0)
+				case 2: // remove, then add again
+					ids, ws = append(ids, ids[0], ids[0]), append(ws, 0, uint64(1+r.Intn(9)))
+				}
+				in := []string{"QM", mode}
+				for j := range ids {
+					w := ws[j]
+					if mode == "eq" {
+						w = eqw
+					}
+					in = append(in, vu.U64(ids[j]), vu.U64(w))
+				}
+				emit(in...)
+			}
 			emit("K", ";", "H", ";", "S", ";", "I", "0") // the empty set
 		},
 		Run: func(in []string) []string {
@@ -379,6 +416,39 @@ func init() {
 					vu.Stat("q_multi")
 				}
 				return []string{vu.U64(uint64(vs.TotalWeight())), vu.U64(uint64(vs.Quorum()))}
+			case "QM":
+				var vs *pos.Validators
+				var p bool
+				func() {
+					defer func() {
+						if r := recover(); r != nil {
+							p = true
+						}
+					}()
+					if in[1] == "dec" {
+						raw, err := rlp.EncodeToBytes(c12Construct("arr", in[2:]))
+						if err != nil {
+							panic(err)
+						}
+						vs = &pos.Validators{}
+						if err = rlp.DecodeBytes(raw, vs); err != nil {
+							panic(err)
+						}
+					} else {
+						vs = c12Construct(in[1], in[2:])
+					}
+				}()
+				vu.Stat("qm_" + in[1])
+				if p {
+					vu.Stat("qm_panic")
+					return []string{"PANIC"}
+				}
+				c := vs.NewCounter()
+				for i := 0; i < int(vs.Len()); i++ {
+					c.CountByIdx(idx.Validator(i))
+				}
+				return []string{vu.U64(uint64(vs.TotalWeight())), vu.U64(uint64(vs.Quorum())),
+					strconv.Itoa(int(vs.Len())), vu.B(c.HasQuorum())}
 			case "K":
 				g := c11Split(in[1:])
 				vs, p := c11Build(g[0])
